@@ -72,7 +72,8 @@ def _rt_task(item):
     kind, arg = item
     rt = _rt()
     el = rt.el
-    ls = [el.ety(t, m, vt) for t in RT_TYPES if t in el.u.names for m, vt in ((0, "Lvalue"), (1, "Lvalue"))]
+    # (volatile destinations: the exporter writes the conversion to them as a cast naming the qualified type, which must read back as written)
+    ls = [el.ety(t, m, vt) for t in RT_TYPES if t in el.u.names for m, vt in ((0, "Lvalue"), (1, "Lvalue"), (2, "Lvalue"))]
     rs = [el.ety(t, 0, "Lvalue") for t in ("Int32", "Float32", "Float322", "Bool", "UInt32") if t in el.u.names]
     cases = trips = skipped = 0
     bad = None
